@@ -465,6 +465,13 @@ def rule_model(ctx, ts, px):
             enc.append(ast.unparse(cur.func))
             cur = pyfront.subst_locals(g.node, cur.args[0]) if cur.args else None
         break
+    # the blob is computed from the object handed in, every time: a memo keyed on the type (pydsdl composites compare equal by name,
+    # version and bit length set only) hands a regenerated class the model of an earlier definition of that type
+    for g in [f] + pyfront.private_helpers(px, f, 2):
+        memo = [ast.unparse(d) for d in g.node.decorator_list if any(k in ast.unparse(d) for k in ("lru_cache", "functools.cache", "cache", "memo"))]
+        ctx.ob(R, g.module.rel, f"{g.short} :: the encoded model is computed per call (no memo keyed on the type)", not memo,
+               "" if not memo else f"decorated with {memo}: pydsdl types hash/compare by name, version and bit lengths, so after the definition changed "
+               "in the same process the embedded _MODEL_ is the one of the earlier definition", g.node.lineno)
     pairs = {"pickle.loads": "pickle.dumps", "gzip.decompress": "gzip.compress", "base64.b85decode": "base64.b85encode"}
     want = [pairs.get(d) for d in dec]
     ok = enc == want[::-1] and len(dec) == 3
